@@ -39,9 +39,10 @@ ASSUMPTIONS = [
     "targets {1, 2.5, 8e5, 0}; length compared with relative tolerance 1e-12, direction with absolute 1e-12 per "
     "component; zero cells and target 0 are compared exactly",
     "reference lengths are computed in exact rational arithmetic from the float components actually stored",
-    "negative or non-finite targets, complex dtypes and wrong norm specifications are outside the statement and are not "
-    "enumerated; integer-typed fields: norm and orientation (new fields) are demanded in unit get_int, the norm SETTER is "
-    "not (the result could not be stored in the integer array)",
+    "negative or non-finite targets and wrong norm specifications are outside the statement and are not enumerated; "
+    "integer-typed (int64, int16 with large values) and complex fields: norm = sqrt(sum |z_i|^2) and orientation = v/|v| "
+    "(new fields) are demanded in unit get_int; the norm SETTER is not demanded for them (an integer array could not store "
+    "the result)",
 ]
 
 SHAPES_T = [(1,), (3,), (8,), (2, 2), (2, 4), (1, 3), (2, 2, 2), (1, 2, 3)]
@@ -357,28 +358,40 @@ def unit_get_int(ctx):
     n = ctx.choose("n", [(4,), (2, 2)])
     d = ctx.choose("nvdim", [1, 2, 3, 4])
     rot = ctx.choose("first-vector", [0, 1, 2, 3])
+    dt = ctx.choose("dtype", ["int64", "int16-large-values", "complex"])
     mesh = mk_mesh(n)
     cells = [tuple(int(i) for i in idx) for idx in np.ndindex(*n)]
     arr = np.zeros((*n, d), dtype=int)
     for j, idx in enumerate(cells):
         arr[idx] = INT_VECS[d][(j + rot) % 4]
-    f = df.Field(mesh, nvdim=d, value=arr.copy(), dtype=int)
+    if dt == "int64":
+        f = df.Field(mesh, nvdim=d, value=arr.copy(), dtype=int)
+    elif dt == "int16-large-values":
+        arr = arr * 100                       # squares exceed the int16 range, the lengths do not
+        f = df.Field(mesh, nvdim=d, value=arr.astype(np.int16), dtype=np.int16)
+    else:
+        # every second component purely imaginary: the Euclidean length is sqrt(sum |z|^2) (e.g. |(3, 4i, 0)| = 5,
+        # although the plain squares 9 - 16 do not even sum to a positive number)
+        ph = np.where(np.arange(d) % 2 == 1, 1j, 1.0)
+        arr = arr * ph
+        f = df.Field(mesh, nvdim=d, value=arr.copy(), dtype=complex)
     inst = ctx.key()
-    ctx.step(2, "norm, orientation of an integer-typed field")
+    ctx.step(2, f"norm, orientation of a {dt}-typed field")
     nf, of = f.norm.array, f.orientation.array
     ctx.observe(nf, of)
     for idx in cells:
-        v = arr[idx].astype(float)
-        L = exact_len(v)
+        v = arr[idx].astype(complex if dt == "complex" else float)
+        L = math.sqrt(float(sum(Fr(float(abs(x.real))) ** 2 + Fr(float(abs(x.imag))) ** 2 for x in np.atleast_1d(v).astype(complex))))
         ctx.check(2)
-        if not (float(nf[idx][0]) == 0.0 if L == 0 else abs(float(nf[idx][0]) - L) <= 1e-12 * L):
-            ctx.fail("Field.norm/not-the-euclidean-length/integer-typed-field", f"cell {idx}: {v.tolist()} norm {nf[idx][0]!r} "
+        g = complex(nf[idx][0])
+        if not (g == 0.0 if L == 0 else abs(g - L) <= 1e-12 * L):
+            ctx.fail(f"Field.norm/not-the-euclidean-length/{dt}-field", f"cell {idx}: {v.tolist()} norm {nf[idx][0]!r} "
                      f"expected {L!r}", instance=inst)
             return
         exp = v / L if L else v
-        if not np.all(np.abs(np.asarray(of[idx], dtype=float) - exp) <= 1e-12):
-            ctx.fail("Field.orientation/not-the-unit-vector/integer-typed-field", f"cell {idx}: {v.tolist()} orientation "
-                     f"{np.asarray(of[idx]).tolist()} expected {exp.tolist()}", instance=inst)
+        if not np.all(np.abs(np.asarray(of[idx], dtype=complex) - exp) <= 1e-12):
+            ctx.fail(f"Field.orientation/not-the-unit-vector/{dt}-field", f"cell {idx}: {v.tolist()} orientation "
+                     f"{np.asarray(of[idx]).tolist()} expected {np.asarray(exp).tolist()}", instance=inst)
             return
 
 
